@@ -232,7 +232,7 @@ def conformance(case, obs):
     a miss) on the same candidate lists; returns None if identical, else a description of the first difference"""
     from vf import explore_search as X
 
-    if case.get("narrow") or case.get("months", 24) != 24:
+    if case.get("narrow"):
         return "skipped"
     tab = [[q[0], q[2], q[3], q[4]] for q in obs["trace"]]
     X.init_worker()
@@ -323,6 +323,8 @@ def product(tier, prop):
         out.append({"method": "rectangle", "pipe": "double_series", "flow": "borehole", "load": "office", "cap": 8})
         out.append({"method": "nearsquare", "pipe": "single", "flow": "borehole", "load": "negligible", "cont": False})
         out.append({"method": "rowwise", "pipe": "single", "flow": "borehole", "load": "mirror", "narrow": True})
+        out.append({"method": "nearsquare", "pipe": "single", "flow": "borehole", "load": "december_only", "months": 36})
+        out.append({"method": "nearsquare", "pipe": "single", "flow": "borehole", "load": "too_large", "cont": True, "cap": 8})
         if prop == "C02":
             out = [c for c in out if c["load"] in ("negligible", "too_large") or c.get("cap")]
         elif prop == "C05":
@@ -331,7 +333,7 @@ def product(tier, prop):
         for mth in methods:
             for p in scenarios.PIPES:
                 for fl in ("borehole", "system"):
-                    for ld in ("office", "mirror", "balanced", "const_rej", "const_ext", "spiky", "heating_first_day"):
+                    for ld in ("office", "mirror", "balanced", "const_rej", "const_ext", "spiky", "heating_first_day", "december_only"):
                         for months in (24, 37):
                             if months == 37 and (p not in ("single",) or ld not in ("office", "spiky", "mirror")):
                                 continue
